@@ -18,6 +18,52 @@ def _check(self, *a):
         stats['solver_checks'] += 1
         stats['solver_s'] += time.perf_counter() - t
 z3.Solver.check = _check
+
+
+def _install_fast_format():
+    """Exact fast path: str.format / str % with fully concrete plain arguments is the real CPython operation
+    (CrossHair otherwise interprets string.Formatter in traced Python and adds decision points)."""
+    import crosshair.core_and_libs  # noqa: registers the stock patches
+    import crosshair.core as core
+    from crosshair.tracers import NoTracing
+    plain = (str, int, float, bool, type(None))
+
+    def concrete(x, depth=0):
+        t = type(x)
+        if t in plain:
+            return True
+        if (t is tuple or t is list) and depth < 3:
+            return all(concrete(y, depth + 1) for y in x)
+        if t is dict and depth < 3:
+            return all(concrete(k, depth + 1) and concrete(v, depth + 1) for k, v in x.items())
+        return False
+
+    stock_format = core._PATCH_REGISTRATIONS.get(str.format)
+    stock_mod = core._PATCH_REGISTRATIONS.get(str.__mod__)
+
+    def fast_format(self, /, *a, **kw):
+        with NoTracing():
+            if type(self) is str and concrete(a) and concrete(kw):
+                return str.format(self, *a, **kw)
+        return stock_format(self, *a, **kw)
+
+    def fast_mod(self, other):
+        with NoTracing():
+            if isinstance(self, str) and type(self).__mod__ in (str.__mod__,) and concrete(other):
+                return str.__mod__(self, other)
+            if isinstance(self, str) and concrete(other) and concrete(str(self)):
+                return str.__mod__(str.__str__(self), other)
+        return stock_mod(self, other)
+
+    if stock_format is not None:
+        core._PATCH_REGISTRATIONS[str.format] = fast_format
+    if stock_mod is not None:
+        core._PATCH_REGISTRATIONS[str.__mod__] = fast_mod
+
+
+import os
+if os.environ.get('VERIF_FAST_FORMAT', '1') == '1':
+    _install_fast_format()
 t0 = time.time()
 try:
     chmain.main(sys.argv[1:])
